@@ -214,9 +214,12 @@ OnTerminated(s) ==
   IF s.closed THEN Ok(s, None)
   ELSE LET c  == Hook(Note([s EXCEPT !.subs = FALSE], <<"cleanup">>), "cleanup")   \* cleanups: unsubscribe (rpc, broadcast), then the user's; a raising cleanup is logged and swallowed
            s1 == [c.s EXCEPT !.closed = TRUE, !.cleaned = @ + 1]
-           blocked == s1.task.pc \in {"awaitPaused", "awaitWF"} /\ ~s1.task.woken
-           s2 == IF "F7" \in Fixes THEN Wake(Wake(s1, "awaitPaused"), "awaitWF")
-                 ELSE IF blocked THEN Dev(s1, "D7") ELSE s1
+           \* F8: termination releases a step that is blocked on the pause future (the future is resolved, the
+           \* process stays "paused"); a task blocked on the waiting future is not released: known finding D7
+           s1r == IF "F8" \in Fixes /\ s1.pausedF = "pending"
+                  THEN Wake([s1 EXCEPT !.pausedF = "released"], "awaitPaused") ELSE s1
+           blocked == s1r.task.pc \in {"awaitPaused", "awaitWF"} /\ ~s1r.task.woken
+           s2 == IF blocked THEN Dev(s1r, "D7") ELSE s1r
        IN Hook(s2, "on_close")
 
 (* ----------------------------------------------------------------------------------------------- *)
@@ -353,7 +356,8 @@ Pause(s, text) ==
   ELSE DoPause(s, text, NoState)
 
 OnPlaying(s) ==                           \* on_playing
-  LET s1 == Wake([s EXCEPT !.pausedF = "none", !.status = s.preStatus, !.preStatus = None], "awaitPaused")
+  LET s0 == IF s.pausedF = "pending" THEN Wake(s, "awaitPaused") ELSE s       \* set_result unless already released (F8)
+      s1 == [s0 EXCEPT !.pausedF = "none", !.status = s.preStatus, !.preStatus = None]
   IN Hook(Listeners(s1, "played", None), "on_playing")
 
 Play(s) ==
@@ -465,7 +469,7 @@ Advance(s) ==
          IF s.st \in Terminal THEN Note([s EXCEPT !.task.pc = "done"], <<"taskdone">>)
          ELSE IF s.closed THEN TaskFailed(s, "ClosedError")
          ELSE IF s.pausedF = "pending" THEN [s EXCEPT !.task.pc = "awaitPaused", !.task.woken = FALSE]
-         ELSE Advance([s EXCEPT !.stepping = TRUE, !.task.pc = "exec"])
+         ELSE Advance([s EXCEPT !.stepping = TRUE, !.task.pc = "exec"])      \* ("released" only occurs when terminated)
     [] s.task.pc = "exec" ->              \* await self._run_task(self._state.execute)
          CASE s.st = "CREATED" -> AfterExec(s, [kind |-> "state", next |-> Running(1, <<>>, <<>>)])
            [] s.st = "RUNNING" ->
